@@ -43,6 +43,7 @@ def op_strategy(npool):
         st.tuples(st.sampled_from(["str", "hash", "human", "pickle", "query", "origin", "parent"]), i),
         st.tuples(st.just("ctor"), st.integers(0, len(STRINGS) - 1)),
         st.tuples(st.just("ctor_big"), st.integers(0, len(BIG) - 1)),
+        st.tuples(st.just("burst"), st.integers(0, 3), st.sampled_from([40, 150, 300])),
         st.tuples(st.just("with_query_big"), i, st.integers(0, len(BIG) - 1)),
         st.tuples(st.just("with_path_big"), i, st.integers(0, len(BIG) - 1)),
         st.tuples(st.just("div"), i, st.sampled_from(["seg", "a b", "é", "../x"])),
@@ -90,6 +91,13 @@ def run_op(Y, pool, op):
             r = pool[op[1]].parent
         elif k == "ctor":
             r = Y.URL(STRINGS[op[1]])
+        elif k == "burst":
+            acc = []
+            for i in range(op[2]):
+                u = Y.URL("http://u%d-%d:p@h%d-%d.example:%d/x?k=%d" % (op[1], i, op[1], i, 1000 + i, i))
+                acc.append((u.raw_host, u.explicit_port, u.raw_user))
+                acc.append(Y.URL("http://x/").with_host("n%d-%d.example" % (op[1], i)).host)
+            r = acc
         elif k == "ctor_big":
             r = Y.URL("http://h.example/" + BIG[op[1]] + "?" + BIG[op[1]])
         elif k == "with_query_big":
